@@ -397,6 +397,15 @@ class Interp:
     def ex_List(self, node):
         return ListV([self.eval(e) for e in node.elts])
 
+    def ex_Dict(self, node):
+        from .models import DictV
+        items = []
+        for k, v in zip(node.keys, node.values):
+            if k is None:
+                self.unsupported(node, "dict unpacking")
+            items.append((self.eval(k), self.eval(v)))
+        return DictV(items)
+
     def ex_JoinedStr(self, node):
         for v in node.values:
             if isinstance(v, ast.FormattedValue):
